@@ -214,6 +214,23 @@ CLAIMED = {
              "its Horner polyval validated against NumPy); rank > 1; reads through tags (same "
              "DataView path as C08). Counterexamples are replayed with real floats on a real file.",
         ref="3 C15"),
+    "C04": dict(
+        text="PARTIAL. On a fixture with a rich link topology (two blocks with equal entity names; one "
+             "array linked from a group, a tag's references and feature, a multi-tag's positions / "
+             "extents / references; nested sources and sections with repeated names; metadata links "
+             "from block, array, tag, sources, a member-less group) and for every one of 13 entities "
+             "deleted by name, id, object or index: afterwards the API-level picture of the whole file "
+             "equals the picture before with the deleted entity, everything it owns and every link to "
+             "any of them removed - nothing else changed, order kept. For every one of 14 links (list "
+             "entries by id / object / index, metadata links incl. those of a leaf source and an empty "
+             "group): removing the link changes exactly that link and deletes neither target nor owner.",
+        note="Decided is nixio's Python side: which ids are collected and sent for deletion, that the "
+             "link / metadata deleters unlink only, H5Group.delete's delete-if-empty rule. NOT decided: "
+             "that libhdf5's H5Ovisit reaches every link and frees the storage - fakeh5's visititems "
+             "is pinned to h5py by the differential script (incl. two delete-while-visiting scenarios) "
+             "but remains a model. One fixture; data frames outside. Counterexamples are replayed on a "
+             "real HDF5 file.",
+        ref="9 (as built)"),
     "C01": dict(
         text="PARTIAL - only the Python-side arithmetic and decisions of nixio are decided: "
              "(i) DataSet.append for ranks 1-3 (quick) / 1-4 (thorough), ALL non-negative extents of the "
@@ -240,10 +257,6 @@ NOT_APPLICABLE = {
            "stand-in would assume the property). nixio's share - no write-back cache, every setter goes "
            "straight to the backend - has no symbolic variable to quantify over; it is exercised as a "
            "by-product of C12/C19/C05 but that is not this property.",
-    "C04": "Solver-based checking not applicable: what a delete removes is decided by H5Ovisit traversal "
-           "under concurrent unlinking and HDF5 hard-link reference counting inside libhdf5; fakeh5's "
-           "visititems is pinned to h5py only on a small script, a check built on it would largely "
-           "assume the property. (Deletion histories inside one container are covered by C03.)",
     "C16": "Solver-based checking not applicable: every data-frame operation is NumPy structured-array / "
            "HDF5 compound-type manipulation behind C boundaries (CrossHair concretises there); in "
            "addition the data-frame code does not run with the installed NumPy 2.x (all data-frame "
